@@ -23,6 +23,10 @@ MC_CFG = """CONSTANTS
   MaxMut = {maxmut}
   MaxClose = {maxclose}
   MaxKs = {maxks}
+  BurstSizes = {bursts}
+  UploadRounds = {uprounds}
+  UploadSizes = {upsizes}
+  MaxBurst = {maxburst}
   Paths = {paths}
 INIT Init
 NEXT Next
@@ -71,7 +75,9 @@ def mc(ctx, name, **kw):
              sizes=tla_set(kw["sizes"]), reads=tla_set(kw["reads"]), kssizes=tla_set(kw.get("kssizes", [])),
              kssides=tla_set(kw.get("kssides", [])), maxops=kw["maxops"], maxw=kw["maxw"], maxku=kw.get("maxku", 0),
              maxmut=kw.get("maxmut", 0), maxclose=kw.get("maxclose", 0), maxks=kw.get("maxks", 0),
-             paths="TRUE" if kw.get("paths") else "FALSE")
+             paths="TRUE" if kw.get("paths") else "FALSE",
+             bursts=tla_set(kw.get("bursts", [])), uprounds=tla_set(kw.get("uprounds", [])),
+             upsizes=tla_set(kw.get("upsizes", [])), maxburst=kw.get("maxburst", 0))
     with open("%s/%s.cfg" % (ctx.scratch, name), "w") as f:
         f.write(MC_CFG.format(**d))
     res = ctx.tlc("Record_MC", cfg=name, workers=kw.get("workers", 8), timeout=kw.get("timeout", 1500),
@@ -107,6 +113,14 @@ def concretise(ops, rng, mutctr):
             mutctr[0] += 1
             o.update(kind=kind, where=where, pos=rng.randrange(1 << 20),
                      mask=(1 if where == "len" else rng.choice([1, 2, 4, 8, 16, 32, 64, 128, 255, rng.randrange(1, 256)])))
+        if o["op"] == "KUB":      # k key updates in a row
+            out += [{"op": "KU", "x": o["x"], "req": o["req"]} for _ in range(o["k"])]
+            continue
+        if o["op"] == "UPL":      # k x (write; the receiver sends a KeyUpdate)
+            py = "s" if o["x"] == "c" else "c"
+            for _ in range(o["k"]):
+                out += [{"op": "W", "x": o["x"], "n": o["n"]}, {"op": "KU", "x": py, "req": o["req"]}]
+            continue
         out.append(o)
     return out
 
